@@ -3,6 +3,7 @@
 // inclusive bounds.  (awgn power calibration and snr/sinad/thd accuracy are pure numerics: not decided.)
 #include "dsp_util.h"
 #include "simrun.h"
+#include "histcalls.h"
 
 #include <atomic>
 
@@ -189,6 +190,7 @@ Plan gen(uint64_t seed, const std::string& tier) {
     const int nthr = r.chance(0.3) ? 1 : int(r.range(2, tier == "thorough" ? 8 : 4));
     gen_sched_params(r, pl, nthr);
     pl.p["prefix2_seed"] = r.seed32();
+    pl.p["measure_hist"] = r.chance(0.08) ? double(r.seed32()) : 0.0;
     for (int t = 0; t < nthr; ++t) {
         const int npre = int(r.range(0, 6));
         for (int i = 0; i < npre; ++i) {
@@ -330,6 +332,11 @@ Result exec(const Plan& pl) {
         res.digest.bytes(got[size_t(t)].data(), got[size_t(t)].size() * sizeof(double));
         res.inc("probe.replay_compared");
         res.inc("sim.values_compared", int64_t(got[size_t(t)].size()));
+    }
+    // 1 run in 12: a history of thd / sinad / snr / awgn calls on records sharing an FFT size (history independence only;
+    // their calibration is not decided here)
+    if (res.ok && pl.iparam("measure_hist", 0) != 0) {
+        run_history_calls("C19", HF_MEASURE, uint32_t(pl.iparam("measure_hist", 1)), 4, res);
     }
     res.inc("sim.threads", nthr);
     res.inc("probe.multi_thread_run", nthr > 1);
